@@ -16,6 +16,8 @@ class Loss(Module):
     
     def __init__(self, reduction='mean') -> None:
         super().__init__()
+        if reduction not in ('none', 'mean', 'sum', None): # None is documented as "no reduction" too
+            raise ValueError(f"'{reduction}' is not a valid value for reduction (expected 'none', 'mean' or 'sum')")
         self.reduction = reduction
         
     def __call__(self, y_pred:Tensor, y_true:Tensor) -> Any:
